@@ -521,6 +521,12 @@ def build_optimized_tables(
                                 )
                         t = new_table[0]
                         t["array"] = np.vstack([td["array"] for td in new_table])
+                    else:
+                        raise RuntimeError(
+                            f"Facet quadrature permutations are not supported for cell {cell_type}."
+                        )
+                else:
+                    raise RuntimeError(f"Unsupported topological dimension {tdim}.")
             elif entity_type == "ridge":
                 if tdim < 3 or codim == 2:
                     # If ridge integral over vertex no permutation is needed,
@@ -555,6 +561,10 @@ def build_optimized_tables(
                         )
                     t = new_table[0]
                     t["array"] = np.vstack([td["array"] for td in new_table])
+            else:
+                raise RuntimeError(
+                    f"Quadrature permutations are not supported for entity type {entity_type}."
+                )
         else:
             t = get_ffcx_table_values(
                 quadrature_rule.points,
